@@ -5,6 +5,11 @@ Built on C10 (`lexS_gap`, `Spells`, `program_renders`): the serializer's output 
 spellings), each of which lexes to known tokens on known lines whatever follows; the tokens are then shown to render the expected parse tree.
 -/
 import MPilot.Props.C10
+import Mathlib.Data.Rat.Defs
+import Mathlib.Tactic.FieldSimp
+import Mathlib.Tactic.Ring
+import Mathlib.Tactic.Linarith
+import Mathlib.Algebra.Order.Field.Rat
 
 namespace MPilot.C15P
 open MPilot MPilot.Lex MPilot.C10
@@ -87,6 +92,140 @@ theorem spells_toString_int (n : Int) : Spells (toString n).toList .int (.int n)
     rw [hv] at h
     exact h
 
+/-! ### decimals as the serializer prints them (positional notation) -/
+
+theorem findScale_spec (a : Rat) (ha : 0 ≤ a) : ∀ (fuel k m k' : Nat), findScale a k fuel = some (m, k') →
+    a * (10 : Rat) ^ k' = (m : Rat) ∧ k' < k + fuel := by
+  intro fuel
+  induction fuel with
+  | zero => intro k m k' h; simp [findScale] at h
+  | succ f ih =>
+    intro k m k' h
+    unfold findScale at h
+    simp only at h
+    split at h
+    · rename_i hden
+      simp only [Option.some.injEq, Prod.mk.injEq] at h
+      obtain ⟨hm, hk⟩ := h
+      subst hk
+      have hd : (a * (10 : Rat) ^ k).den = 1 := by simpa using hden
+      have hv := Rat.coe_int_num_of_den_eq_one hd
+      have hnn : 0 ≤ a * (10 : Rat) ^ k := mul_nonneg ha (by positivity)
+      have hnum : 0 ≤ (a * (10 : Rat) ^ k).num := Rat.num_nonneg.mpr hnn
+      refine ⟨?_, by omega⟩
+      rw [← hm, ← hv]
+      have : ((a * (10 : Rat) ^ k).num.toNat : Int) = (a * (10 : Rat) ^ k).num := Int.toNat_of_nonneg hnum
+      exact_mod_cast congrArg (fun z : Int => (z : Rat)) this.symm
+    · obtain ⟨h1, h2⟩ := ih (k + 1) m k' h
+      exact ⟨h1, by omega⟩
+
+theorem digitsVal_app (l r : List Char) : digitsVal (l ++ r) = digitsVal l * 10 ^ r.length + digitsVal r := by
+  induction r generalizing l with
+  | nil => simp [digitsVal]
+  | cons d r ih =>
+    have e : l ++ d :: r = (l ++ [d]) ++ r := by simp
+    have e2 : d :: r = [d] ++ r := rfl
+    rw [e, ih (l ++ [d]), digitsVal_append, e2, ih [d]]
+    have : digitsVal [d] = d.toNat - '0'.toNat := by simp [digitsVal]
+    rw [this]
+    simp only [List.length_append, List.length_singleton, List.length_cons, List.length_nil, pow_succ, pow_zero]
+    ring
+
+theorem digitsVal_zeros (n : Nat) : digitsVal (List.replicate n '0') = 0 := by
+  induction n with
+  | zero => rfl
+  | succ n ih =>
+    rw [List.replicate_succ', digitsVal_append, ih]; rfl
+
+
+theorem isDig_zero : isDig '0' = true := by decide
+
+/-- the digits of `m` with the point `k` places from the right: both parts are digit strings, the integer part is not empty, the fractional
+part has `max k 1` digits, and together they denote `m / 10^k` -/
+theorem pointAt_spec (m k : Nat) : ∀ ip fp, pointAt (Nat.toDigits 10 m) k = (ip, fp) →
+    ip ≠ [] ∧ (∀ c ∈ ip, isDig c = true) ∧ (∀ c ∈ fp, isDig c = true) ∧ fp.length = max k 1 ∧
+    decimalValue ip fp = (m : Rat) / (10 : Rat) ^ k := by
+  intro ip fp h
+  have hd := isDig_toDigits m
+  have hne : Nat.toDigits 10 m ≠ [] := Nat.toDigits_ne_nil
+  unfold pointAt at h
+  split at h
+  · rename_i hk
+    have hk0 : k = 0 := by simpa using hk
+    simp only [Prod.mk.injEq] at h
+    obtain ⟨rfl, rfl⟩ := h
+    refine ⟨hne, hd, by simp [isDig_zero], by simp [hk0], ?_⟩
+    unfold decimalValue
+    rw [digitsVal_app, digitsVal_toDigits, hk0]
+    simp [digitsVal]
+  · rename_i hk
+    have hk0 : k ≠ 0 := by simpa using hk
+    split at h
+    · rename_i hlen
+      simp only [Prod.mk.injEq] at h
+      obtain ⟨rfl, rfl⟩ := h
+      refine ⟨?_, fun c hc => hd c (List.mem_of_mem_take hc), fun c hc => hd c (List.mem_of_mem_drop hc), ?_, ?_⟩
+      · intro e
+        have := congrArg List.length e
+        simp only [List.length_take, List.length_nil] at this
+        omega
+      · simp only [List.length_drop]; omega
+      · unfold decimalValue
+        rw [List.take_append_drop, digitsVal_toDigits]
+        simp only [List.length_drop]
+        congr 2; omega
+    · rename_i hlen
+      simp only [Prod.mk.injEq] at h
+      obtain ⟨rfl, rfl⟩ := h
+      refine ⟨by simp, by simp [isDig_zero], ?_, ?_, ?_⟩
+      · intro c hc
+        rcases List.mem_append.mp hc with hc | hc
+        · rw [List.eq_of_mem_replicate hc]; exact isDig_zero
+        · exact hd c hc
+      · simp only [List.length_append, List.length_replicate]; omega
+      · unfold decimalValue
+        have e : ['0'] ++ (List.replicate (k - (Nat.toDigits 10 m).length) '0' ++ Nat.toDigits 10 m) =
+            List.replicate (k - (Nat.toDigits 10 m).length + 1) '0' ++ Nat.toDigits 10 m := by
+          rw [List.replicate_succ]; rfl
+        rw [e, digitsVal_app, digitsVal_zeros, digitsVal_toDigits]
+        simp only [List.length_append, List.length_replicate, Nat.zero_mul, Nat.zero_add]
+        congr 2; omega
+
+
+/-- **every decimal the serializer can print** (terminating, at most 400 places) is read back as exactly that number -/
+theorem spells_positional (q : Rat) (txt : String) (h : positional q = some txt) :
+    Spells txt.toList .float (.float q) (StopsAt (fun c => isDig c || c == 'e' || c == 'E')) := by
+  unfold positional at h
+  simp only at h
+  split at h
+  · cases h
+  · rename_i m k hfs
+    have ha : 0 ≤ (if q < 0 then -q else q) := by split <;> linarith
+    obtain ⟨hval, hk⟩ := findScale_spec _ ha 400 0 m k hfs
+    cases hp : pointAt (Nat.toDigits 10 m) k with
+    | mk ip fp =>
+      rw [hp] at h
+      simp only [Option.some.injEq] at h
+      subst h
+      obtain ⟨hne, hi, hf, hlen, hdv⟩ := pointAt_spec m k ip fp hp
+      have hsp := spells_float (decide (q < 0)) ip fp hne hi hf (by rw [hlen]; omega)
+      have hsign : (if q < 0 then ['-'] else []) = signChars (decide (q < 0)) := by
+        unfold signChars; by_cases hq : q < 0 <;> simp [hq]
+      have hpow : (10 : Rat) ^ k ≠ 0 := by positivity
+      have hdv' : decimalValue ip fp = if q < 0 then -q else q := by
+        rw [hdv, ← hval]; field_simp
+      have htv : floatTokVal (decide (q < 0)) ip fp = .float q := by
+        unfold floatTokVal
+        rw [hdv']
+        by_cases hq : q < 0
+        · have : (-q == 0) = false := by
+            simp only [beq_eq_false_iff_ne, ne_eq, neg_eq_zero]; intro e; rw [e] at hq; exact absurd hq (lt_irrefl 0)
+          simp [hq, this]
+        · simp [hq]
+      rw [String.toList_ofList, hsign, ← htv]
+      exact hsp
+
+
 /-! ### values -/
 
 /-- identifier-shaped text: a letter or underscore, then letters, digits, underscores -/
@@ -106,6 +245,11 @@ theorem Delim.stops_id {rest : List Char} (h : Delim rest) : StopsAt isIdCont re
   apply stopsAt_cons
   rcases hc with rfl | rfl | rfl <;> decide
 
+theorem Delim.stops_float {rest : List Char} (h : Delim rest) : StopsAt (fun c => isDig c || c == 'e' || c == 'E') rest := by
+  obtain ⟨c, r, rfl, hc⟩ := h
+  apply stopsAt_cons
+  rcases hc with rfl | rfl | rfl <;> decide
+
 theorem Delim.stops_num {rest : List Char} (h : Delim rest) : StopsAt (fun c => isDig c || c == '.') rest := by
   obtain ⟨c, r, rfl, hc⟩ := h
   apply stopsAt_cons
@@ -113,7 +257,7 @@ theorem Delim.stops_num {rest : List Char} (h : Delim rest) : StopsAt (fun c => 
 
 mutual
   /-- the values the theorem covers: quoted text, integers, booleans, `None`, words that are identifiers (references to results, unquoted
-  identifiers), and lists of such values to any depth.  (Not covered: decimals, whose positional printing is not characterised here, and metadata tuples.) -/
+  identifiers), decimals (any rational the serializer can print: terminating, at most 400 places), and lists of such values to any depth; metadata tuples are covered by `ArgCovered` below. -/
   def Covered (isRes : Bool) : Raw → Prop
     | .str s => isRes = true → IsIdent s
     | .int _ => True
@@ -121,7 +265,7 @@ mutual
     | .none => True
     | .cmd n => IsIdent n
     | .list xs => CoveredL isRes xs
-    | .float _ => False
+    | .float _ => True
     | .dict _ => False
     | .pytype _ => False
   def CoveredL (isRes : Bool) : List Raw → Prop
@@ -138,7 +282,7 @@ mutual
     | .none, l => [⟨.id, .str "None", l⟩]
     | .cmd n, l => [⟨.id, .str n, l⟩]
     | .list xs, l => ⟨.lbrack, .none, l⟩ :: (match xs with | [] => [] | x :: t => valToks isRes x l ++ restToks isRes t l) ++ [⟨.rbrack, .none, l⟩]
-    | .float _, _ => []
+    | .float q, l => [⟨.float, .float q, l⟩]
     | .dict _, _ => []
     | .pytype _, _ => []
   /-- `, item` for every further item -/
@@ -156,7 +300,7 @@ mutual
     | .none, l => .mk (.str "None") l
     | .cmd n, l => .mk (.str n) l
     | .list xs, l => .mk (.list (nodesOf isRes xs l)) l
-    | .float _, l => .mk (.str "") l
+    | .float q, l => .mk (.float q) l
     | .dict _, l => .mk (.str "") l
     | .pytype _, l => .mk (.str "") l
   def nodesOf (isRes : Bool) : List Raw → Nat → List ENode
@@ -185,7 +329,7 @@ mutual
         have hx := valRVal isRes x h.1 l
         have := restRElems isRes t h.2 l x hx
         exact RVal.list l l _ _ this
-    | .float _, h, _ => absurd h (by simp [Covered])
+    | .float q, _, l => RVal.float q l
     | .dict _, h, _ => absurd h (by simp [Covered])
     | .pytype _, h, _ => absurd h (by simp [Covered])
   theorem restRElems (isRes : Bool) : ∀ (t : List Raw), CoveredL isRes t → ∀ l (x : Raw), RVal (valToks isRes x l) (valNode isRes x l) →
@@ -299,7 +443,9 @@ mutual
           rw [restSeg isRes t h.2 b hb _ line (delim_rbrack rest)]
           rw [lexS_punct ']' .rbrack _ line (by decide)]
           simp only [valToks, List.cons_append, List.append_assoc, List.nil_append]
-    | .float _, h, _, _, _, _, _ => absurd h (by simp [Covered])
+    | .float q, _, txt, ht, rest, line, hd => by
+        rw [serializeValue, scalarText] at ht
+        rw [spells_positional q txt ht rest line hd.stops_float]; rfl
     | .dict _, h, _, _, _, _, _ => absurd h (by simp [Covered])
     | .pytype _, h, _, _, _, _, _ => absurd h (by simp [Covered])
   theorem restSeg (isRes : Bool) : ∀ (t : List Raw), CoveredL isRes t → ∀ (ss : List String), serializeValues isRes t = some ss →
@@ -748,10 +894,11 @@ def ProgCovered (p : Program) : Prop := p.cmds ≠ [] ∧ ∀ c ∈ p.cmds, CmdC
 /-- **C15 (whole programs).**  The text `to_string()` writes for a program - commands in order, one argument per line, strings quoted,
 integers in decimal, references, booleans and `None` as words, lists to any depth - is read back by the parser as exactly that program:
 the same commands in the same order, the same argument names and values, version 3, every node on the line the serializer put it on.
-(Covered: result, command and argument names that are identifiers; values that are strings, integers, booleans, `None`, references
-and lists of these; metadata tuples of any length, whose values - numbers included - are written as quoted text and come back as that
-text, the map built from the last pair backwards as the parser does.  Decimals as argument values are outside this theorem: their
-positional printing is covered by the character-exact correspondence and the round-trip oracle on the implementation.) -/
+(Covered: result, command and argument names that are identifiers; values that are strings, integers, decimals (every rational the
+serializer can print: terminating, at most 400 places - which includes the exact value of every double's shortest `repr` in positional range),
+booleans, `None`, references and lists of these; metadata tuples of any length, whose values - numbers included - are written as quoted
+text and come back as that text, the map built from the last pair backwards as the parser does.  Where the serializer has no text for a
+value, `serializeProgram` is `none` and the theorem does not apply.) -/
 theorem serialize_parse_roundtrip (p : Program) (h : ProgCovered p) (txt : String) (ht : serializeProgram p = some txt) :
     parse txt = .ok ⟨progNodes p.cmds 1, 3⟩ := by
   obtain ⟨hne, hc⟩ := h
@@ -770,5 +917,10 @@ theorem serialize_parse_roundtrip (p : Program) (h : ProgCovered p) (txt : Strin
       unfold parse
       rw [lex_eq_lexS, prog_chars, progSeg cs c hc t ts ht hts 1]
       exact program_renders (progRProg cs c hc 1)
+
+/-- non-vacuity: decimals are printed and read back (`-1234.5678`, `0.001`, `3.0`) -/
+example : positional (-12345678 / 10000) = some "-1234.5678" ∧ positional (1 / 1000) = some "0.001" ∧ positional 3 = some "3.0" ∧
+    positional (1 / 3) = none := by
+  decide +kernel
 
 end MPilot.C15P
